@@ -169,12 +169,12 @@ def inlined(f, bj, depth=2, _stack=(), only_mut=False):
                     blocks.append(nb)
                 changed = True
         i += 1
-    if not changed:
+    if not changed and _stack:
         return bj
     out = dict(bj)
     out['blocks'] = blocks
     out['locals'] = locals_
-    out['inlined'] = True
+    out['inlined'] = changed
     if not _stack:
         _propagate_reference_aliases(out)
     return out
